@@ -240,6 +240,7 @@ func runPlan(c *pbt.Case, p Plan) {
 	faultSince := false   // a fault or rejoin happened
 	commitAfter := false  // ... and a commit followed it
 	paused := map[int]bool{}
+	staleFiles := map[*cluster.CNode]bool{}
 
 	// verify is the safety oracle: whatever position a node reports, the image an
 	// application reads there is the image committed at that position.
@@ -302,6 +303,10 @@ func runPlan(c *pbt.Case, p Plan) {
 						c.Failf("C01/shm-header", "step %d (%s): replica %s %s: wal-index header says mxFrame=%d nPage=%d, image has %d pages", step, what, n.Name, name, res.SHMMxFrame, res.SHMPageN, img.N())
 					}
 				}
+				if monSig != "" && strings.HasPrefix(monSig, "C09/") && staleFiles[n] {
+					c.Label("old-chain-next-to-snapshot-after-crash")
+					monSig = ""
+				}
 				if monSig != "" {
 					c.Failf(monSig, "step %d (%s): node %s: %s", step, what, n.Name, monMsg)
 				}
@@ -331,6 +336,14 @@ func runPlan(c *pbt.Case, p Plan) {
 			}
 			c.Label("crash-restart")
 			c.Labelf("crash-before:%s", label)
+			// A received snapshot is renamed into place and the files it replaces are removed
+			// one by one afterwards: a node killed in between comes back with both, recovers
+			// from the newest file (C05) and keeps the others until retention or the next
+			// snapshot removes them. The chain predicate (C09, whose histories have no
+			// crashes) does not apply to that directory any more.
+			if strings.HasPrefix(label, "os:remove:REMOVEFILESEXCEPT") {
+				staleFiles[n] = true
+			}
 			faultSince = true
 		}
 		switch st.Kind {
